@@ -119,6 +119,7 @@ func (strategy) PersistEntity(e *Item, ctx *boltz.PersistContext) {
 	ctx.SetStringP("boss", e.Boss)
 	ctx.SetLinkedIds("peers", e.Peers)
 	ctx.SetLinkedIds("places", e.Places)
+	ctx.SetStringList("kids", e.Peers) // the same ids once more, under a symbol whose linked type is the child store
 }
 
 type XItem struct {
@@ -229,14 +230,18 @@ func NewPublic(pub func(name string) bool) *Store {
 		if ext {
 			c.Extended()
 		}
-		st.GrantSymbols(c)
-		c.AddSymbol("xv", ast.NodeTypeString)
 		return c
 	}
 	st.Child = mk(false, "x")
 	st.ChildExt = mk(true, "xe")
+	// a set of ids whose linked type is the plain child store (sub-queries over it are queries of the child store)
+	st.AddFkSetSymbol("kids", st.Child)
+	for _, c := range []*boltz.BaseStore[*XItem]{st.Child, st.ChildExt} {
+		st.GrantSymbols(c)
+		c.AddSymbol("xv", ast.NodeTypeString)
+	}
 	if pub != nil {
-		for _, name := range []string{"roles", "peers", "places"} {
+		for _, name := range []string{"roles", "peers", "places", "kids"} {
 			if pub(name) {
 				st.MakeSymbolPublic(name)
 			}
@@ -402,7 +407,7 @@ func (st *Store) Load(db boltz.Db, ds map[string]any, childOf func(id string) bo
 		}
 		for _, id := range ids {
 			e := mkItem(id, true)
-			if err := st.Update(ctx, e, boltz.MapFieldChecker{"boss": struct{}{}, "peers": struct{}{}, "places": struct{}{}}); err != nil {
+			if err := st.Update(ctx, e, boltz.MapFieldChecker{"boss": struct{}{}, "peers": struct{}{}, "places": struct{}{}, "kids": struct{}{}}); err != nil {
 				return fmt.Errorf("link %s: %w", id, err)
 			}
 		}
@@ -411,7 +416,7 @@ func (st *Store) Load(db boltz.Db, ds map[string]any, childOf func(id string) bo
 		k := 0
 		for _, id := range ids {
 			eb := st.GetEntityBucket(ctx.Tx(), []byte(names[id]))
-			for _, set := range []string{"roles", "peers", "places"} {
+			for _, set := range []string{"roles", "peers", "places", "kids"} {
 				if sb := eb.GetBucket(set); sb != nil {
 					if key, _ := sb.Cursor().First(); key == nil {
 						if k%2 == 0 {
